@@ -25,33 +25,67 @@ Definition fnames (FT : ftab) : list str := map fst FT.
 Section OkStmt.
 Variable FT : ftab.
 Variable SP : option (list str).   (* the parameters of the executing function (None at module level): `self(args)` *)
-(* a call of a known function / of the executing function with the right number of call-free arguments *)
-Definition ok_call (B : list str) (e : expr) : bool :=
+(* expressions with calls: call-free expressions, the operators + - * / % comparisons && || ! unary-minus over
+   such expressions, and calls of a known function / of the executing function with the right number of
+   arguments, which are again such expressions (calls nested at any depth) *)
+Definition is_call (e : expr) : bool := match e with ECall _ _ | ESelf _ => true | _ => false end.
+Fixpoint ok_cexpr (B : list str) (e : expr) {struct e} : bool :=
+  let fix oks (l : list expr) : bool := match l with [] => true | a :: l => ok_cexpr B a && oks l end in
+  ok_expr B e ||
   match e with
+  | EBin _ a b => ok_cexpr B a && ok_cexpr B b
+  | EAnd a b | EOr a b => negb (is_call a) && negb (is_call b) && ok_cexpr B a && ok_cexpr B b
+  | ENot a | ENeg a => negb (is_call a) && ok_cexpr B a
   | ECall (EVar f) args =>
     match assoc f FT with
-    | Some (ps, _) => Nat.eqb (length args) (length ps) && forallb (ok_expr B) args
+    | Some (ps, _) => Nat.eqb (length args) (length ps) && oks args
     | None => false end
   | ESelf args =>
     match SP with
-    | Some ps => Nat.eqb (length args) (length ps) && forallb (ok_expr B) args
+    | Some ps => Nat.eqb (length args) (length ps) && oks args
     | None => false end
   | _ => false
   end.
-Definition ok_rhs (B : list str) (e : expr) : bool := ok_expr B e || ok_call B e.
+Fixpoint ok_cexprs (B : list str) (l : list expr) : bool :=
+  match l with [] => true | a :: l => ok_cexpr B a && ok_cexprs B l end.
+Definition ok_rhs (B : list str) (e : expr) : bool := ok_cexpr B e.
+Lemma ok_cexpr_eq : forall B e, ok_cexpr B e =
+  ok_expr B e ||
+  match e with
+  | EBin _ a b => ok_cexpr B a && ok_cexpr B b
+  | EAnd a b | EOr a b => negb (is_call a) && negb (is_call b) && ok_cexpr B a && ok_cexpr B b
+  | ENot a | ENeg a => negb (is_call a) && ok_cexpr B a
+  | ECall (EVar f) args =>
+    match assoc f FT with
+    | Some (ps, _) => Nat.eqb (length args) (length ps) && ok_cexprs B args
+    | None => false end
+  | ESelf args =>
+    match SP with
+    | Some ps => Nat.eqb (length args) (length ps) && ok_cexprs B args
+    | None => false end
+  | _ => false
+  end.
+Proof.
+  intros B e.
+  assert (Hl : forall l, (fix oks (l : list expr) : bool := match l with [] => true | a :: l => ok_cexpr B a && oks l end) l = ok_cexprs B l).
+  { induction l as [|a l IH]; [reflexivity|]. cbn [ok_cexprs]. now rewrite <- IH. }
+  destruct e; try reflexivity.
+  - destruct e; try reflexivity. cbn [ok_cexpr]. destruct (assoc x FT) as [[ps0 b0]|]; [|reflexivity]. now rewrite Hl.
+  - cbn [ok_cexpr]. destruct SP; [|reflexivity]. now rewrite Hl.
+Qed.
 Fixpoint ok_stmt (il : bool) (B : list str) (s : stmt) {struct s} : bool :=
   let fix okb (il : bool) (B : list str) (l : list stmt) {struct l} : bool :=
     match l with [] => true | s :: l => ok_stmt il B s && okb il (after B s) l end in
   match s with
   | SAssign x e => src_nameb x && negb (mem_str x (fnames FT)) && ok_rhs B e
-  | SOpAssign x o e => arith5 o && src_nameb x && mem_str x B && ok_expr B e
+  | SOpAssign x o e => arith5 o && src_nameb x && mem_str x B && ok_rhs B e
   | SPrint e => ok_rhs B e
   | SExpr e => ok_rhs B e
-  | SAssert e _ => ok_expr B e
-  | SIf c b => ok_expr B c && okb il B b
-  | SIfElse c b e => ok_expr B c && okb il B b && okb il B e
-  | SIfElif c b n => ok_expr B c && okb il B b && ok_stmt il B n
-  | SWhile c b => ok_expr B c && okb true B b
+  | SAssert e _ => ok_rhs B e
+  | SIf c b => ok_rhs B c && okb il B b
+  | SIfElse c b e => ok_rhs B c && okb il B b && okb il B e
+  | SIfElif c b n => ok_rhs B c && okb il B b && ok_stmt il B n
+  | SWhile c b => ok_rhs B c && okb true B b
   | SFrom a b _ st nm collide body =>
     ok_expr B a && ok_expr B b &&
     match nm, collide with
@@ -71,13 +105,13 @@ Fixpoint ok_stmt (il : bool) (B : list str) (s : stmt) {struct s} : bool :=
 Fixpoint ok_block (il : bool) (B : list str) (l : list stmt) {struct l} : bool :=
   match l with [] => true | s :: l => ok_stmt il B s && ok_block il (after B s) l end.
 
-Lemma ok_SIf : forall il B c b, ok_stmt il B (SIf c b) = ok_expr B c && ok_block il B b.
+Lemma ok_SIf : forall il B c b, ok_stmt il B (SIf c b) = ok_rhs B c && ok_block il B b.
 Proof. reflexivity. Qed.
-Lemma ok_SIfElse : forall il B c b e, ok_stmt il B (SIfElse c b e) = ok_expr B c && ok_block il B b && ok_block il B e.
+Lemma ok_SIfElse : forall il B c b e, ok_stmt il B (SIfElse c b e) = ok_rhs B c && ok_block il B b && ok_block il B e.
 Proof. reflexivity. Qed.
-Lemma ok_SIfElif : forall il B c b n, ok_stmt il B (SIfElif c b n) = ok_expr B c && ok_block il B b && ok_stmt il B n.
+Lemma ok_SIfElif : forall il B c b n, ok_stmt il B (SIfElif c b n) = ok_rhs B c && ok_block il B b && ok_stmt il B n.
 Proof. reflexivity. Qed.
-Lemma ok_SWhile : forall il B c b, ok_stmt il B (SWhile c b) = ok_expr B c && ok_block true B b.
+Lemma ok_SWhile : forall il B c b, ok_stmt il B (SWhile c b) = ok_rhs B c && ok_block true B b.
 Proof. reflexivity. Qed.
 Lemma ok_SFrom : forall il B a b incl st nm collide body, ok_stmt il B (SFrom a b incl st nm collide body) =
   ok_expr B a && ok_expr B b &&
@@ -124,22 +158,50 @@ Proof.
   apply Bool.andb_true_iff in H3 as [A C]. split; [now apply src_nameb_ok|now apply mem_str_In].
 Qed.
 
-(* ================================================================ right-hand sides: a call-free expression, or a call
-   of a module-level function / of the executing function itself with call-free arguments *)
-Fixpoint argcode (k : nat) (l : list expr) : list instr :=
-  match l with [] => [] | a :: l => pcode k a ++ [mkI OP_STORE_FAST [reg k]] ++ argcode (S k) l end.
+(* ================================================================ the code of expressions with calls (= pcode on call-free
+   expressions): operands are parked in registers, the callee value in #(d+1), the arguments in #(d+2), ... *)
 Fixpoint argloads (k : nat) (l : list expr) : list instr :=
   match l with [] => [] | _ :: l => mkI OP_LOAD_FAST [reg k] :: argloads (S k) l end.
-Definition xcode (c : nat) (e : expr) : list instr :=
+Fixpoint ccode (d : nat) (e : expr) {struct e} : list instr :=
+  let fix cargc (k : nat) (l : list expr) {struct l} : list instr :=
+    match l with [] => [] | a :: l => ccode k a ++ [mkI OP_STORE_FAST [reg k]] ++ cargc (S k) l end in
   match e with
+  | EBin o a b => ccode (S d) a ++ [mkI OP_STORE_FAST [reg d]] ++ ccode (S d) b
+                    ++ [mkI OP_LOAD_FAST [reg d]; mkI OP_FAST_REV2 []] ++ [op_instr o]
+  | EAnd a b => ccode (S d) a ++ [mkI OP_STORE_SKIP [reg d; s_zero; sN (length (ccode (S d) b) + 3)]]
+                  ++ ccode (S d) b ++ [mkI OP_LOAD_FAST [reg d]; mkI OP_BIN_OP [op_and]]
+  | EOr a b => ccode (S d) a ++ [mkI OP_STORE_SKIP [reg d; s_one; sN (length (ccode (S d) b) + 3)]]
+                 ++ ccode (S d) b ++ [mkI OP_LOAD_FAST [reg d]; mkI OP_BIN_OP [op_or]]
+  | ENot a => ccode (S d) a ++ [mkI OP_NOT []]
+  | ENeg a => ccode (S d) a ++ [mkI OP_NEG []]
   | ECall (EVar f) args =>
-    [mkI OP_LOAD [f]; mkI OP_STORE_FAST [reg (S c)]] ++ argcode (S (S c)) args ++ argloads (S (S c)) args
-      ++ [mkI OP_LOAD_FAST [reg (S c)]; mkI OP_CALL []]
-  | ESelf args => argcode (S c) args ++ argloads (S c) args ++ [mkI OP_CALL_SELF []]
-  | _ => pcode c e
+    [mkI OP_LOAD [f]; mkI OP_STORE_FAST [reg (S d)]] ++ cargc (S (S d)) args ++ argloads (S (S d)) args
+      ++ [mkI OP_LOAD_FAST [reg (S d)]; mkI OP_CALL []]
+  | ESelf args => cargc (S d) args ++ argloads (S d) args ++ [mkI OP_CALL_SELF []]
+  | _ => pcode d e
   end.
+Fixpoint argcode (k : nat) (l : list expr) : list instr :=
+  match l with [] => [] | a :: l => ccode k a ++ [mkI OP_STORE_FAST [reg k]] ++ argcode (S k) l end.
+Definition xcode (c : nat) (e : expr) : list instr := ccode c e.
+
+Lemma ccode_ECall : forall d f args, ccode d (ECall (EVar f) args) =
+  [mkI OP_LOAD [f]; mkI OP_STORE_FAST [reg (S d)]] ++ argcode (S (S d)) args ++ argloads (S (S d)) args
+    ++ [mkI OP_LOAD_FAST [reg (S d)]; mkI OP_CALL []].
+Proof.
+  reflexivity.
+Qed.
+Lemma ccode_ESelf : forall d args, ccode d (ESelf args) = argcode (S d) args ++ argloads (S d) args ++ [mkI OP_CALL_SELF []].
+Proof.
+  reflexivity.
+Qed.
+Lemma ccode_pure : forall e d, pure e = true -> ccode d e = pcode d e.
+Proof.
+  induction e; intros d H; try reflexivity; try discriminate; cbn [pure] in H; cbn [ccode pcode].
+  all: try (apply Bool.andb_true_iff in H as [H1 H2]).
+  all: rewrite ?IHe1, ?IHe2, ?IHe by assumption; reflexivity.
+Qed.
 Lemma xcode_pure : forall c e, pure e = true -> xcode c e = pcode c e.
-Proof. intros c e H. destruct e; try reflexivity; discriminate. Qed.
+Proof. intros c e H. now apply ccode_pure. Qed.
 
 (* ================================================================ the direct code generator *)
 Definition step_code (c : nat) (st : option expr) : list citem :=
@@ -155,23 +217,23 @@ Fixpoint sitems (c : nat) (lr : nat) (sl : option nat) (s : stmt) {struct s} : l
   let inner := option_map S sl in
   match s with
   | SAssign x e => map CI (xcode c e) ++ [I OP_STORE [x]]
-  | SOpAssign x o e => map CI (pcode (S c) e) ++ [I OP_BIN_OP_ASSIGN [binop_sym o ++ [61%N]; x]; I OP_VOID []]
+  | SOpAssign x o e => map CI (xcode (S c) e) ++ [I OP_BIN_OP_ASSIGN [binop_sym o ++ [61%N]; x]; I OP_VOID []]
   | SPrint e => map CI (xcode c e) ++ [I OP_PRINTN [s_star]; I OP_VOID []]
-  | SAssert e sp => map CI (pcode c e) ++ [I OP_ASSERT [sp]]
+  | SAssert e sp => map CI (xcode c e) ++ [I OP_ASSERT [sp]]
   | SExpr e => map CI (xcode c e) ++ [I OP_VOID []]
   | SIf cnd body =>
     let cb := bl lr inner body ++ [I OP_DONE []] in
-    map CI (pcode c cnd) ++ [I OP_IF_STMT [sN (length cb + 1)]] ++ cb
+    map CI (xcode c cnd) ++ [I OP_IF_STMT [sN (length cb + 1)]] ++ cb
   | SIfElse cnd body els =>
     let cb := bl lr inner body ++ [I OP_DONE []] in
     let ce := I OP_ELSE_STMT [] :: bl lr inner els ++ [I OP_DONE []] in
-    map CI (pcode c cnd) ++ [I OP_IF_STMT [sN (length cb + 2)]] ++ cb ++ [I OP_JMP [sN (length ce + 1)]] ++ ce
+    map CI (xcode c cnd) ++ [I OP_IF_STMT [sN (length cb + 2)]] ++ cb ++ [I OP_JMP [sN (length ce + 1)]] ++ ce
   | SIfElif cnd body nxt =>
     let cb := bl lr inner body ++ [I OP_DONE []] in
     let ce := I OP_ELSE_STMT [] :: sitems c lr inner nxt ++ [I OP_DONE []] in
-    map CI (pcode c cnd) ++ [I OP_IF_STMT [sN (length cb + 2)]] ++ cb ++ [I OP_JMP [sN (length ce + 1)]] ++ ce
+    map CI (xcode c cnd) ++ [I OP_IF_STMT [sN (length cb + 2)]] ++ cb ++ [I OP_JMP [sN (length ce + 1)]] ++ ce
   | SWhile cnd body =>
-    let cc := map CI (pcode c cnd) in
+    let cc := map CI (xcode c cnd) in
     let cb0 := bl lr (Some 1) body in
     let cb := cb0 ++ [I OP_JMP_POP [neg_off (1 + length cb0 + length cc)]] in
     cc ++ [I OP_WHILE_LOOP [sN (length cb + 1)]] ++ resolve (length cb) 0 0 cb
@@ -201,20 +263,20 @@ End BItems.
 
 Lemma sitems_SIf : forall c lr sl cnd body, sitems c lr sl (SIf cnd body) =
   let cb := bitems c lr (option_map S sl) body ++ [I OP_DONE []] in
-  map CI (pcode c cnd) ++ [I OP_IF_STMT [sN (length cb + 1)]] ++ cb.
+  map CI (xcode c cnd) ++ [I OP_IF_STMT [sN (length cb + 1)]] ++ cb.
 Proof. reflexivity. Qed.
 Lemma sitems_SIfElse : forall c lr sl cnd body els, sitems c lr sl (SIfElse cnd body els) =
   let cb := bitems c lr (option_map S sl) body ++ [I OP_DONE []] in
   let ce := I OP_ELSE_STMT [] :: bitems c lr (option_map S sl) els ++ [I OP_DONE []] in
-  map CI (pcode c cnd) ++ [I OP_IF_STMT [sN (length cb + 2)]] ++ cb ++ [I OP_JMP [sN (length ce + 1)]] ++ ce.
+  map CI (xcode c cnd) ++ [I OP_IF_STMT [sN (length cb + 2)]] ++ cb ++ [I OP_JMP [sN (length ce + 1)]] ++ ce.
 Proof. reflexivity. Qed.
 Lemma sitems_SIfElif : forall c lr sl cnd body nxt, sitems c lr sl (SIfElif cnd body nxt) =
   let cb := bitems c lr (option_map S sl) body ++ [I OP_DONE []] in
   let ce := I OP_ELSE_STMT [] :: sitems c lr (option_map S sl) nxt ++ [I OP_DONE []] in
-  map CI (pcode c cnd) ++ [I OP_IF_STMT [sN (length cb + 2)]] ++ cb ++ [I OP_JMP [sN (length ce + 1)]] ++ ce.
+  map CI (xcode c cnd) ++ [I OP_IF_STMT [sN (length cb + 2)]] ++ cb ++ [I OP_JMP [sN (length ce + 1)]] ++ ce.
 Proof. reflexivity. Qed.
 Lemma sitems_SWhile : forall c lr sl cnd body, sitems c lr sl (SWhile cnd body) =
-  let cc := map CI (pcode c cnd) in
+  let cc := map CI (xcode c cnd) in
   let cb0 := bitems c lr (Some 1) body in
   let cb := cb0 ++ [I OP_JMP_POP [neg_off (1 + length cb0 + length cc)]] in
   cc ++ [I OP_WHILE_LOOP [sN (length cb + 1)]] ++ resolve (length cb) 0 0 cb.
@@ -316,24 +378,59 @@ Ltac okx H := repeat (rewrite Bool.andb_true_iff in H; let H' := fresh H in dest
 
 Lemma cexpr_ok : forall B e d st, ok_expr B e = true -> cexpr path d e st = (map CI (pcode d e), st).
 Proof. intros B e d st H. apply ok_expr_parts in H as (Hp & _ & _). now apply cexpr_pure. Qed.
-Lemma cargs_pure : forall B l k st, forallb (ok_expr B) l = true ->
-  cargs path k l st = (map CI (argcode k l), map CI (argloads k l), st).
+Lemma I_op_instr : forall o, match o with BEq => I OP_EQU [] | BNeq => I OP_NEQ [] | _ => I OP_BIN_OP [binop_sym o] end = CI (op_instr o).
+Proof. intros o. destruct o; reflexivity. Qed.
+
+Lemma cexpr_c : forall FT SP e B d st, ok_cexpr FT SP B e = true -> cexpr path d e st = (map CI (ccode d e), st).
 Proof.
-  intros B. induction l as [|a l IH]; intros k st H; [reflexivity|].
-  cbn [forallb] in H. apply Bool.andb_true_iff in H as [H1 H2]. cbn [cargs argcode argloads].
-  rewrite (cexpr_ok B) by exact H1. rewrite IH by exact H2. rewrite !map_app. reflexivity.
+  intros FT SP.
+  apply (expr_ind' (fun e => forall B d st, ok_cexpr FT SP B e = true -> cexpr path d e st = (map CI (ccode d e), st)) (fun _ => True));
+    try (intros; exact Logic.I).
+  all: try (intros until st; intros H; rewrite ok_cexpr_eq in H; apply Bool.orb_true_iff in H as [H|H]; [|discriminate];
+            rewrite ccode_pure by (apply ok_expr_parts in H as (Hp & _ & _); exact Hp); now apply (cexpr_ok B)).
+  - intros o a b IHa IHb B d st H. rewrite ok_cexpr_eq in H. apply Bool.orb_true_iff in H as [H|H].
+    + rewrite ccode_pure by (apply ok_expr_parts in H as (Hp & _ & _); exact Hp). now apply (cexpr_ok B).
+    + apply Bool.andb_true_iff in H as [Ha Hb]. rewrite cexpr_EBin, (IHa B _ _ Ha), (IHb B _ _ Hb). cbn [ccode].
+      rewrite I_op_instr, !map_app. reflexivity.
+  - intros a b IHa IHb B d st H. rewrite ok_cexpr_eq in H. apply Bool.orb_true_iff in H as [H|H].
+    + rewrite ccode_pure by (apply ok_expr_parts in H as (Hp & _ & _); exact Hp). now apply (cexpr_ok B).
+    + rewrite !Bool.andb_true_iff in H. destruct H as [[_ Ha] Hb]. rewrite cexpr_EAnd, (IHa B _ _ Ha), (IHb B _ _ Hb). cbn [ccode].
+      rewrite !map_app, map_length. reflexivity.
+  - intros a b IHa IHb B d st H. rewrite ok_cexpr_eq in H. apply Bool.orb_true_iff in H as [H|H].
+    + rewrite ccode_pure by (apply ok_expr_parts in H as (Hp & _ & _); exact Hp). now apply (cexpr_ok B).
+    + rewrite !Bool.andb_true_iff in H. destruct H as [[_ Ha] Hb]. rewrite cexpr_EOr, (IHa B _ _ Ha), (IHb B _ _ Hb). cbn [ccode].
+      rewrite !map_app, map_length. reflexivity.
+  - intros a IHa B d st H. rewrite ok_cexpr_eq in H. apply Bool.orb_true_iff in H as [H|H].
+    + rewrite ccode_pure by (apply ok_expr_parts in H as (Hp & _ & _); exact Hp). now apply (cexpr_ok B).
+    + apply Bool.andb_true_iff in H as [_ H]. rewrite cexpr_ENot, (IHa B _ _ H). cbn [ccode]. rewrite !map_app. reflexivity.
+  - intros a IHa B d st H. rewrite ok_cexpr_eq in H. apply Bool.orb_true_iff in H as [H|H].
+    + rewrite ccode_pure by (apply ok_expr_parts in H as (Hp & _ & _); exact Hp). now apply (cexpr_ok B).
+    + apply Bool.andb_true_iff in H as [_ H]. rewrite cexpr_ENeg, (IHa B _ _ H). cbn [ccode]. rewrite !map_app. reflexivity.
+  - intros f l _ IHl B d st H. rewrite ok_cexpr_eq in H. apply Bool.orb_true_iff in H as [H|H].
+    { apply ok_expr_parts in H as (Hp & _ & _). discriminate. }
+    destruct f; try discriminate. destruct (assoc x FT) as [[ps body]|]; [|discriminate]. apply Bool.andb_true_iff in H as [_ H].
+    assert (Hargs : forall k st0, cargs path k l st0 = (map CI (argcode k l), map CI (argloads k l), st0)).
+    { clear -IHl H. induction l as [|a l IH]; intros k st0; [reflexivity|].
+      cbn [ok_cexprs] in H. apply Bool.andb_true_iff in H as [H1 H2]. cbn [cargs argcode argloads].
+      rewrite (Forall_inv IHl B _ _ H1). rewrite (IH (Forall_inv_tail IHl) H2). rewrite !map_app. reflexivity. }
+    rewrite cexpr_ECall. cbn [cexpr]. rewrite Hargs. rewrite ccode_ECall. rewrite !map_app. reflexivity.
+  - intros l IHl B d st H. rewrite ok_cexpr_eq in H. apply Bool.orb_true_iff in H as [H|H].
+    { apply ok_expr_parts in H as (Hp & _ & _). discriminate. }
+    destruct SP as [ps|]; [|discriminate]. apply Bool.andb_true_iff in H as [_ H].
+    assert (Hargs : forall k st0, cargs path k l st0 = (map CI (argcode k l), map CI (argloads k l), st0)).
+    { clear -IHl H. induction l as [|a l IH]; intros k st0; [reflexivity|].
+      cbn [ok_cexprs] in H. apply Bool.andb_true_iff in H as [H1 H2]. cbn [cargs argcode argloads].
+      rewrite (Forall_inv IHl B _ _ H1). rewrite (IH (Forall_inv_tail IHl) H2). rewrite !map_app. reflexivity. }
+    rewrite cexpr_ESelf. rewrite Hargs. rewrite ccode_ESelf. rewrite !map_app. reflexivity.
+  - intros ps body _ B d st H. rewrite ok_cexpr_eq in H. apply Bool.orb_true_iff in H as [H|H]; [|discriminate].
+    apply ok_expr_parts in H as (Hp & _ & _). discriminate.
+  - intros a b _ _ B d st H. rewrite ok_cexpr_eq in H. apply Bool.orb_true_iff in H as [H|H]; [|discriminate].
+    rewrite ccode_pure by (apply ok_expr_parts in H as (Hp & _ & _); exact Hp). now apply (cexpr_ok B).
+  - intros a sp _ B d st H. rewrite ok_cexpr_eq in H. apply Bool.orb_true_iff in H as [H|H]; [|discriminate].
+    rewrite ccode_pure by (apply ok_expr_parts in H as (Hp & _ & _); exact Hp). now apply (cexpr_ok B).
 Qed.
 Lemma cexpr_rhs : forall FT SP B e d st, ok_rhs FT SP B e = true -> cexpr path d e st = (map CI (xcode d e), st).
-Proof.
-  intros FT SP B e d st H. unfold ok_rhs in H. apply Bool.orb_true_iff in H as [H|H].
-  - rewrite xcode_pure; [now apply (cexpr_ok B)|]. now apply ok_expr_parts in H as (Hp & _ & _).
-  - destruct e; try discriminate.
-    + destruct e; try discriminate. cbn [ok_call] in H.
-      destruct (assoc x FT) as [[ps body]|]; [|discriminate]. apply Bool.andb_true_iff in H as [_ H].
-      rewrite cexpr_ECall. cbn [cexpr]. rewrite (cargs_pure B) by exact H. cbn [xcode]. rewrite !map_app. reflexivity.
-    + cbn [ok_call] in H. destruct SP as [ps|]; [|discriminate]. apply Bool.andb_true_iff in H as [_ H].
-      rewrite cexpr_ESelf. rewrite (cargs_pure B) by exact H. cbn [xcode]. rewrite !map_app. reflexivity.
-Qed.
+Proof. intros FT SP B e d st H. exact (cexpr_c FT SP e B d st H). Qed.
 Lemma cexpr_okx : forall B e d st, ok_expr B e = true -> cexpr path d e st = (map CI (xcode d e), st).
 Proof. intros B e d st H. rewrite xcode_pure; [now apply (cexpr_ok B)|]. now apply ok_expr_parts in H as (Hp & _ & _). Qed.
 
@@ -342,23 +439,23 @@ Proof.
   intros c. apply (stmt_ind' (fun _ => True) (frag_eq c)); try (intros; exact Logic.I); unfold frag_eq.
   - intros x e _ FT SP il B sl st H. cbn [ok_stmt] in H. okx H. cbn [cstmt sitems]. now rewrite (cexpr_rhs FT SP B).
   - intros x e _ FT SP il B sl st H. discriminate.
-  - intros x o e _ FT SP il B sl st H. cbn [ok_stmt] in H. okx H. cbn [cstmt sitems]. now rewrite (cexpr_ok B).
+  - intros x o e _ FT SP il B sl st H. cbn [ok_stmt] in H. okx H. cbn [cstmt sitems]. now rewrite (cexpr_rhs FT SP B).
   - intros e _ FT SP il B sl st H. cbn [ok_stmt] in H. cbn [cstmt sitems]. now rewrite (cexpr_rhs FT SP B).
-  - intros e sp _ FT SP il B sl st H. cbn [ok_stmt] in H. cbn [cstmt sitems]. now rewrite (cexpr_ok B).
+  - intros e sp _ FT SP il B sl st H. cbn [ok_stmt] in H. cbn [cstmt sitems]. now rewrite (cexpr_rhs FT SP B).
   - intros e _ FT SP il B sl st H. cbn [ok_stmt] in H. cbn [cstmt sitems]. now rewrite (cexpr_rhs FT SP B).
   - intros cnd b _ Hb FT SP il B sl st H. rewrite ok_SIf in H. okx H.
-    rewrite cstmt_SIf, sitems_SIf, (cexpr_ok B) by assumption.
+    rewrite cstmt_SIf, sitems_SIf, (cexpr_rhs FT SP B) by assumption.
     rewrite (cblockT_frag c b Hb FT SP il B _ st) by assumption. reflexivity.
   - intros cnd b e _ Hb He FT SP il B sl st H. rewrite ok_SIfElse in H. okx H.
-    rewrite cstmt_SIfElse, sitems_SIfElse, (cexpr_ok B) by assumption.
+    rewrite cstmt_SIfElse, sitems_SIfElse, (cexpr_rhs FT SP B) by assumption.
     rewrite (cblockT_frag c b Hb FT SP il B _ st) by assumption.
     rewrite (cblockT_frag c e He FT SP il B _ st) by assumption. reflexivity.
   - intros cnd b n _ Hb Hn FT SP il B sl st H. rewrite ok_SIfElif in H. okx H.
-    rewrite cstmt_SIfElif, sitems_SIfElif, (cexpr_ok B) by assumption.
+    rewrite cstmt_SIfElif, sitems_SIfElif, (cexpr_rhs FT SP B) by assumption.
     rewrite (cblockT_frag c b Hb FT SP il B _ st) by assumption.
     rewrite (Hn FT SP il B _ st) by assumption. reflexivity.
   - intros cnd b _ Hb FT SP il B sl st H. rewrite ok_SWhile in H. okx H.
-    rewrite cstmt_SWhile, sitems_SWhile, (cexpr_ok B) by assumption.
+    rewrite cstmt_SWhile, sitems_SWhile, (cexpr_rhs FT SP B) by assumption.
     rewrite (cblockT_frag c b Hb FT SP true B _ st) by assumption. reflexivity.
   - intros a b incl step nm col body _ _ _ Hbody FT SP il B sl st H.
     rewrite ok_SFrom in H. rewrite !Bool.andb_true_iff in H. destruct H as [[Hoa Hob] H].
